@@ -342,56 +342,87 @@ example :
 `harness/translate_c03ir.py` translates every function, method and module-level lambda of /repo's package
 into the language of `Model/HeapIR.lean` on every run (`Generated/HeapIR*.lean`); sections 1–4 above keep
 their hand-written models. The discipline `writesOnlyFresh` is an abstract interpretation (classes: immutable
-value / object allocated in this call at a ghost level / anything); its soundness is proved ONCE
-(`Lemmas/HeapIR*.lean`, `exec_sound`, `runFn_good`, `sem_good`) and instantiated here. -/
+value / object allocated in this call at a ghost level / the object of an UNPROTECTED parameter / anything);
+its soundness is proved ONCE (`Lemmas/HeapIR*.lean`: `exec_sound`, `runFn_good`, `sem_good`) and instantiated
+here.
+
+PROTECTED and UNPROTECTED parameters. The property protects arguments that are a Triangle, a Cell or a
+Metadata and everything they reach. A parameter annotated `pd.DataFrame` is UNPROTECTED (`Fn.wparams`, only
+when the function or a callee really writes it; every unannotated parameter is protected): the function may
+write into the object that argument refers to — not into what that object contains. The frame
+`PreservesW n W h h'` says: every location that existed at entry and is not the object of an unprotected
+argument (`W = callW wparams args`) holds the same object afterwards. -/
 
 section HeapIR
 open Bermuda.HeapIR
 
-/-- SOUNDNESS OF THE DISCIPLINE. If every function of a program respects the discipline, then a call of
-any of its functions — any arguments, any heap, any oracle (= every branch choice, every iteration count,
-every key, every datum, every result of a pure callback), any call depth `d`, whether the call returns or
-raises — leaves every location that existed at entry unchanged: `Preserves h.size h h'`. In particular every
-location reachable from the arguments (see `frame_of_discipline_reachable`). -/
+/-- the unprotected parameters of function `i` of a program -/
+def wparamsOf (P : List Fn) (i : Nat) : List Nat := ((summaries P).getD i (.any, [])).2
+
+/-- SOUNDNESS OF THE DISCIPLINE (general form). If every function of a program respects the discipline, then a
+call of any of its functions — any arguments, any heap, any oracle (= every branch choice, every iteration
+count, every key, every datum, every result of a pure callback), any call depth `d`, whether the call returns
+or raises — leaves every location that existed at entry unchanged, except the objects handed to its
+unprotected parameters. -/
+theorem frame_protected (P : List Fn) (hP : disciplined P = true) (d i : Nat) (args : List Ref) (h : Heap)
+    (o : Oracle) (hwf : ∀ l, callW (wparamsOf P i) args l → l < h.size) :
+    PreservesW h.size (callW (wparamsOf P i) args) h (sem P d i args h o).1 := by
+  -- the objects of the unprotected arguments are typed `ext` in the entry heap
+  have ht : Typed 0 (callW (wparamsOf P i) args) (Typing.entry (callW (wparamsOf P i) args)) h :=
+    Typed.entry 0 h hwf
+  obtain ⟨_, _, _, p, _⟩ := sem_good P hP d i args h o 0 _ _ ht (Nat.zero_le _)
+    (fun l hl => ⟨.ext, Typing.entry_of hl, rfl⟩)
+  exact p
+
+/-- SOUNDNESS, all parameters protected (the statement of round 2): everything that existed at entry is unchanged -/
 theorem frame_of_discipline (P : List Fn) (hP : disciplined P = true) (d i : Nat) (args : List Ref) (h : Heap)
-    (o : Oracle) : Preserves h.size h (sem P d i args h o).1 := by
-  obtain ⟨_, _, _, p, _⟩ := sem_good P hP d i args h o 0 Typing.empty (Typed.empty 0 h) (Nat.zero_le _)
-  exact p
+    (o : Oracle) (hw : wparamsOf P i = []) : Preserves h.size h (sem P d i args h o).1 := by
+  have p := frame_protected P hP d i args h o (by rw [hw]; intro l ⟨j, hj, _⟩; cases hj)
+  rw [hw] at p
+  exact ⟨p.1, fun l hl => p.2.1 l hl (fun ⟨j, hj, _⟩ => by cases hj)⟩
 
-/-- the same for one function run against any frame-respecting, class-respecting call semantics -/
-theorem frame_of_discipline_fn {sums : List Cls} {cs : CallSem} (hcs : GoodCalls sums cs) (f : Fn)
-    (hf : writesOnlyFresh sums f = true) (args : List Ref) (h : Heap) (o : Oracle) :
-    Preserves h.size h (runFn cs f args h o).1 := by
-  obtain ⟨_, _, _, p, _⟩ := runFn_good hcs f hf args h o 0 Typing.empty (Typed.empty 0 h) (Nat.zero_le _)
-  exact p
+/-- protected and unprotected arguments are SEPARATED in the entry heap: no location reachable from a protected
+argument is the object of an unprotected argument (checked in the correspondence by identity of the argument
+objects: the data frame is not the Metadata, nor an attribute of it) -/
+def separated (h : Heap) (wp : List Nat) (args : List Ref) : Prop :=
+  ∀ j arg, args[j]? = some arg → j ∉ wp → ∀ l ∈ reach h arg, ¬ callW wp args l
 
-/-- in terms of reachability: every location reachable from an argument that lives in the entry heap holds
-the same object after the call -/
-theorem frame_of_discipline_reachable (P : List Fn) (hP : disciplined P = true) (d i : Nat) (args : List Ref)
-    (h : Heap) (o : Oracle) (arg : Ref) (_ : arg ∈ args) (hwf : ∀ l ∈ reach h arg, l < h.size) :
+/-- in terms of reachability: every location reachable from a PROTECTED argument that lives in the entry heap
+holds the same object after the call -/
+theorem frame_protected_reachable (P : List Fn) (hP : disciplined P = true) (d i : Nat) (args : List Ref)
+    (h : Heap) (o : Oracle) (hsep : separated h (wparamsOf P i) args) (j : Nat) (arg : Ref)
+    (hj : args[j]? = some arg) (hprot : j ∉ wparamsOf P i) (hwf : ∀ l ∈ reach h arg, l < h.size)
+    (hargs : ∀ l, callW (wparamsOf P i) args l → l < h.size) :
     ∀ l ∈ reach h arg, (sem P d i args h o).1.get l = h.get l :=
-  frame_reachable (frame_of_discipline P hP d i args h o) arg hwf
+  fun l hl => (frame_protected P hP d i args h o hargs).2.1 l (hwf l hl) (hsep j arg hj hprot l hl)
 
 /-- POSITION IN A CHAIN: a sequence of calls of disciplined functions (each with its own arguments — which
 may be results of earlier calls — and its own oracle) leaves everything that existed BEFORE THE CHAIN
-unchanged, after every prefix of the chain -/
+unchanged, after every prefix of the chain, except the objects handed to unprotected parameters along it -/
 theorem frame_chain_ir (P : List Fn) (hP : disciplined P = true) (d : Nat)
-    (calls : List (Nat × List Ref × Oracle)) (h : Heap) :
-    Preserves h.size h (calls.foldl (fun g c => (sem P d c.1 c.2.1 g c.2.2).1) h) := by
-  suffices ∀ (calls : List (Nat × List Ref × Oracle)) (g : Heap), Preserves h.size h g →
-      Preserves h.size h (calls.foldl (fun g c => (sem P d c.1 c.2.1 g c.2.2).1) g) from
-    this calls h (Preserves.refl (Nat.le_refl _))
+    (calls : List (Nat × List Ref × Oracle)) (h : Heap) (W : Loc → Prop)
+    (hW : ∀ c ∈ calls, ∀ l, callW (wparamsOf P c.1) c.2.1 l → W l ∧ l < h.size) :
+    PreservesW h.size W h (calls.foldl (fun g c => (sem P d c.1 c.2.1 g c.2.2).1) h) := by
+  suffices ∀ (calls : List (Nat × List Ref × Oracle)),
+      (∀ c ∈ calls, ∀ l, callW (wparamsOf P c.1) c.2.1 l → W l ∧ l < h.size) →
+      ∀ (g : Heap), PreservesW h.size W h g →
+      PreservesW h.size W h (calls.foldl (fun g c => (sem P d c.1 c.2.1 g c.2.2).1) g) from
+    this calls hW h (PreservesW.refl (Nat.le_refl _))
   intro calls
   induction calls with
-  | nil => intro g hg; exact hg
+  | nil => intro _ g hg; exact hg
   | cons c rest ih =>
-    intro g hg
+    intro hW g hg
     simp only [List.foldl_cons]
-    exact ih _ (hg.trans ((frame_of_discipline P hP d c.1 c.2.1 g c.2.2).mono hg.1))
+    refine ih (fun c' hc' => hW c' (List.mem_cons_of_mem _ hc')) _ (hg.trans ?_)
+    exact (frame_protected P hP d c.1 c.2.1 g c.2.2
+      (fun l hl => Nat.lt_of_lt_of_le (hW c (List.mem_cons_self ..) l hl).2 hg.1)).mono hg.1
+      (fun l _ hl => (hW c (List.mem_cons_self ..) l hl).1)
 
 /-- TODAY'S SOURCE: every function of the generated program respects the discipline. The chunks are
 re-proved by `decide +kernel` in `Generated/HeapIRC*.lean` against the source as it is NOW (a store,
-`+=`, `.update`, `.sort()`, `out=` … through a reference that may reach a parameter makes this fail). -/
+`+=`, `.update`, `.sort()`, `out=` … through a reference that may reach a protected parameter or a global
+makes this fail). -/
 theorem all_disciplined : disciplined Generated.HeapIR.program = true := by
   unfold disciplined
   rw [Generated.HeapIR.program_sums]
@@ -401,52 +432,80 @@ theorem all_disciplined : disciplined Generated.HeapIR.program = true := by
     Generated.HeapIR.chunk4_disciplined⟩, Generated.HeapIR.chunk5_disciplined⟩,
     Generated.HeapIR.chunk6_disciplined⟩, Generated.HeapIR.chunk7_disciplined⟩
 
-/-- THE FRAME PROPERTY OF THE TRANSLATED FUNCTIONS (this replaces the former OPEN statement
-`frame_reachable_entry_points` for everything in `Generated.HeapIR.program`).
-
-COVERS every function, method, property and module-level lambda of /repo's `bermuda` package that the
-translator places in `program` (counts and names: evidence of the run; today 451 of 464, among them every
-operation of the harness registry except the ones listed in the OPEN block below): Triangle / Cell /
-Metadata methods and properties, all of `bermuda.utils`, `bermuda.io` writers and readers, `bermuda.plot`,
-`bermuda.date_utils`, `bermuda.matrix`, the methods `bermuda/factory.py` attaches to `Triangle`.
+/-- THE FRAME PROPERTY OF THE TRANSLATED FUNCTIONS: every function, method, property and module-level lambda
+of /repo's `bermuda` package is in `Generated.HeapIR.program` (today 461 of 464; counts and names in the
+evidence of the run) EXCEPT the three mutators by contract `Generated.HeapIR.mutatorsByContract`
+(`Matrix.__setitem__`, `_BodyRawIO.readinto`, `_open_s3_stream`), which by design write their receiver / the
+caller's buffer / a module-level client cache and take no Triangle, Cell or Metadata to protect (see
+`mutators_excluded`).
 
 STATES: for the IR program of each of them, called with any arguments on any heap at any position of a
 chain, with any oracle and call depth: every location allocated before the call is unchanged afterwards,
-whether it returns or raises.
+whether it returns or raises — except the object of an argument handed to an unprotected (`pd.DataFrame`)
+parameter that the function writes (today: `_check_index_columns`, `wide_data_frame_to_triangle`,
+`long_data_frame_to_triangle` and their `Triangle.from_*` aliases).
 
-TRUSTED (not proved; listed in full in the evidence, `trusted_summaries()` of the translator):
-* the translator itself (Python AST → HeapIR): desugaring of comprehensions / loops / `with` / `try`,
-  attribute and item access as `load`, constructors as allocation + `__init__`, properties as calls,
-  keys of dicts are not tracked (iteration over `.keys()` / `.items()` yields arbitrary references),
-  `a[i]` is an element load (`a[i:j]` a view or a copy), dunder dispatch of operators is not followed
-  (`+` gives a number / new array or a new container of the operands' entries);
-* the tables of summaries for library calls: pure results by kind (immutable / number-or-new-array / new
-  container of the arguments' entries / new object / element / alias), writers (`append`, `update`, `sort`,
-  `fill`, `shuffle(x)`, `np.put`, `setattr` …) and the keywords `out=`, `overwrite_input=`, `inplace=`,
-  `copy=False`; anything not in a table is `unknown` and is rejected when it receives an object;
+TRUSTED (not proved; listed in full in the evidence, `trusted_summaries()` of the translator) — this is the
+PARTIAL note of the property:
+* the translator itself (Python AST → HeapIR): desugaring of comprehensions / loops / `with` / `try`, item
+  access as `load`, the REPRESENTATION of objects (an attribute other than `values` sits in a one-entry box
+  inside the object; a simple constructor's object is built where it is called, from the constructor's top-level
+  `self.attr = E` statements), properties as calls, keys of dicts are not tracked (iteration over `.keys()` /
+  `.items()` yields arbitrary references), `a[i]` is an element load (`a[i:j]` a view or a copy), dunder dispatch
+  of operators is not followed (`+` gives a number / new array or a new container of the operands' entries);
+* the tables of summaries for library calls: pure results by kind, writers (`append`, `update`, `sort`, `fill`,
+  `shuffle(x)`, `np.put`, `setattr` …) and the keywords `out=`, `overwrite_input=`, `inplace=`, `copy=False`;
+  anything not in a table is `unknown` and is rejected when it receives an object;
 * callbacks (callable parameters, callables taken out of containers) are pure;
-* parameters annotated `int / float / str / bool / date / None / Literal / tuples of these` hold immutable
-  values; a function returning one of its parameters unchanged has that return performed by its caller;
-* four functions of /repo are summarised as pure after review (`REVIEWED_PURE` in the translator):
-  `date_utils.standardize_resolution`, `date_utils.resolution_delta`,
-  `basis._policy_earned_premium_share_by_month`, `data_frame_input.long_data_frame_to_triangle`;
+* annotations are honoured: `int / float / str / bool / date / None / Literal / tuples of these` hold immutable
+  values, `dict[K, float]`-like containers hold immutable values, `pd.DataFrame` is unprotected; two parameters
+  without annotation are ASSUMED `tuple[int, str]` (`resolution` of `date_utils.standardize_resolution` and
+  `date_utils.resolution_delta`) and the assumption is checked on every call of the run;
+* a function returning one of its parameters unchanged has that return performed by its caller;
 * caches (`cached_property`, `functools.cache`) write the cache slot of their receiver: not modelled. -/
-theorem frame_translated_functions (d i : Nat) (args : List Ref) (h : Heap) (o : Oracle) :
-    Preserves h.size h (sem Generated.HeapIR.program d i args h o).1 :=
-  frame_of_discipline _ all_disciplined d i args h o
+theorem frame_translated_functions (d i : Nat) (args : List Ref) (h : Heap) (o : Oracle)
+    (hwf : ∀ l, callW (wparamsOf Generated.HeapIR.program i) args l → l < h.size) :
+    PreservesW h.size (callW (wparamsOf Generated.HeapIR.program i) args) h
+      (sem Generated.HeapIR.program d i args h o).1 :=
+  frame_protected _ all_disciplined d i args h o hwf
 
-theorem frame_translated_chain (d : Nat) (calls : List (Nat × List Ref × Oracle)) (h : Heap) :
-    Preserves h.size h (calls.foldl (fun g c => (sem Generated.HeapIR.program d c.1 c.2.1 g c.2.2).1) h) :=
-  frame_chain_ir _ all_disciplined d calls h
+theorem frame_translated_chain (d : Nat) (calls : List (Nat × List Ref × Oracle)) (h : Heap) (W : Loc → Prop)
+    (hW : ∀ c ∈ calls, ∀ l, callW (wparamsOf Generated.HeapIR.program c.1) c.2.1 l → W l ∧ l < h.size) :
+    PreservesW h.size W h (calls.foldl (fun g c => (sem Generated.HeapIR.program d c.1 c.2.1 g c.2.2).1) h) :=
+  frame_chain_ir _ all_disciplined d calls h W hW
+
+/-- the mutators by contract are not functions of `program`: the frame theorem is not claimed for them -/
+theorem mutators_excluded :
+    ∀ f ∈ Generated.HeapIR.program, f.name ∉ Generated.HeapIR.mutatorsByContract := by decide +kernel
+
+/-- THE REGISTRY (this closes the former OPEN statement). `Generated.HeapIR.registryOps` is regenerated from the
+registry of `harness/c03.py` on every run: each operation with the numbers of the library functions it enters
+(`Generated.HeapIR.registry_all_covered : registryUncovered = []` is generated next to it when every operation is
+covered — today all of them). For every operation, every entry function, every call depth, heap, arguments and
+oracle: everything that existed before the call and is not the object of an unprotected (data frame) argument
+is unchanged — so with `separated`, everything reachable from the Triangle / Cell / Metadata arguments. -/
+theorem frame_registry_entry_points :
+    ∀ op ∈ Generated.HeapIR.registryOps, ∀ i ∈ op.2, ∀ (d : Nat) (args : List Ref) (h : Heap) (o : Oracle),
+      (∀ l, callW (wparamsOf Generated.HeapIR.program i) args l → l < h.size) →
+      i < Generated.HeapIR.program.length ∧
+      PreservesW h.size (callW (wparamsOf Generated.HeapIR.program i) args) h
+        (sem Generated.HeapIR.program d i args h o).1 := by
+  intro op hop i hi d args h o hwf
+  refine ⟨?_, frame_translated_functions d i args h o hwf⟩
+  have hall : Generated.HeapIR.registryOps.all
+      (fun op => op.2.all (fun i => decide (i < Generated.HeapIR.program.length))) = true := by decide +kernel
+  have := List.all_eq_true.mp hall op hop
+  have := List.all_eq_true.mp this i hi
+  simpa using this
 
 /-! #### negative controls: programs that violate the discipline AND concretely mutate an argument -/
 
 /-- `total = values[0]; for v in values: total += v; return total` -/
-def irBadSum : Fn := ⟨"bad_sum", [0],
+def irBadSum : Fn := ⟨"bad_sum", [0], [],
   .seq (.load 1 0 .dyn) (.seq (.loop [.any, .any, .any] (.seq (.load 2 0 .dyn) (.aug 1 2))) (.ret 1)), .any⟩
 
 /-- `total = 0; for v in values: total += v; return total` -/
-def irGoodSum : Fn := ⟨"good_sum", [0],
+def irGoodSum : Fn := ⟨"good_sum", [0], [],
   .seq (.const 1) (.seq (.loop [.any, .lv .num, .any] (.seq (.load 2 0 .dyn) (.aug 1 2))) (.ret 1)), .lv .num⟩
 
 /-- witness: a list (location 2) of two arrays `[1]`, `[2]` -/
@@ -469,7 +528,7 @@ theorem irGoodSum_frame :
   decide +kernel
 
 /-- `values = cell.values; values[k] = v` (the seeded `_thin_cell` / `fill_forward_gaps` shape) -/
-def irAliasStore : Fn := ⟨"alias_store", [0, 1], .seq (.load 2 0 (.lit "values")) (.store 2 (.lit "k") 1), .scalar⟩
+def irAliasStore : Fn := ⟨"alias_store", [0, 1], [], .seq (.load 2 0 (.lit "values")) (.store 2 (.lit "k") 1), .scalar⟩
 
 theorem irAliasStore_rejected : writesOnlyFresh [] irAliasStore = false := by decide +kernel
 
@@ -479,7 +538,7 @@ theorem irAliasStore_mutates :
       = some (.dict [("k", .scalar 7)]) := by decide +kernel
 
 /-- `cell1.values.update(cell2.values)` (the seeded `_merge_cell_pair` shape) -/
-def irUpdateParam : Fn := ⟨"update_param", [0, 1],
+def irUpdateParam : Fn := ⟨"update_param", [0, 1], [],
   .seq (.load 2 0 (.lit "values")) (.seq (.load 3 1 (.lit "values")) (.merge 2 3)), .scalar⟩
 
 theorem irUpdateParam_rejected : writesOnlyFresh [] irUpdateParam = false := by decide +kernel
@@ -491,7 +550,7 @@ theorem irUpdateParam_mutates :
 
 /-- `def f(x, acc=[]): acc.append(x); return acc` — the default list is a parameter like any other: it
 lives in the heap before the call -/
-def irDefaultArg : Fn := ⟨"default_arg", [0, 1], .seq (.store 1 .dyn 0) (.ret 1), .any⟩
+def irDefaultArg : Fn := ⟨"default_arg", [0, 1], [], .seq (.store 1 .dyn 0) (.ret 1), .any⟩
 
 theorem irDefaultArg_rejected : writesOnlyFresh [] irDefaultArg = false := by decide +kernel
 
@@ -500,7 +559,7 @@ theorem irDefaultArg_mutates :
   decide +kernel
 
 /-- `cells = triangle.cells; cells.sort()` -/
-def irSortParam : Fn := ⟨"sort_param", [0], .seq (.load 1 0 (.lit "cells")) (.shrink 1), .scalar⟩
+def irSortParam : Fn := ⟨"sort_param", [0], [], .seq (.load 1 0 (.lit "cells")) (.shrink 1), .scalar⟩
 
 theorem irSortParam_rejected : writesOnlyFresh [] irSortParam = false := by decide +kernel
 
@@ -509,32 +568,54 @@ theorem irSortParam_mutates :
       = some (.dict [("1", .scalar 2), ("0", .scalar 1)]) := by decide +kernel
 
 /-- the benign counterpart `d = dict(a); d.update(b)` is accepted: the update goes into the NEW dict -/
-def irCopyUpdate : Fn := ⟨"copy_update", [0, 1], .seq (.alloc 2 (.sh 0) (.union [0])) (.seq (.merge 2 1) (.ret 2)), .lv (.sh 0)⟩
+def irCopyUpdate : Fn := ⟨"copy_update", [0, 1], [], .seq (.alloc 2 (.sh 0) (.union [0])) (.seq (.merge 2 1) (.ret 2)), .lv (.sh 0)⟩
 
 theorem irCopyUpdate_accepted : disciplined [irCopyUpdate] = true := by decide +kernel
 
 /-- a caller of a mutating callee is caught at the callee: the program is not disciplined -/
 theorem irCaller_rejected :
-    disciplined [irAliasStore, ⟨"caller", [0, 1], .call 2 0 [0, 1], .scalar⟩] = false := by decide +kernel
+    disciplined [irAliasStore, ⟨"caller", [0, 1], [], .call 2 0 [0, 1], .scalar⟩] = false := by decide +kernel
+
+/-! #### controls for the UNPROTECTED-parameter rule -/
+
+/-- `def f(df, metadata): df[k] = metadata` with `df : pd.DataFrame` unprotected: writes the data frame object only -/
+def irWriteFrame : Fn := ⟨"write_frame", [0, 1], [0], .store 0 (.lit "col") 1, .scalar⟩
+
+theorem irWriteFrame_accepted : disciplined [irWriteFrame] = true := by decide +kernel
+
+/-- the same body with the first parameter PROTECTED is rejected -/
+theorem irWriteFrame_protected_rejected :
+    writesOnlyFresh [] ⟨"write_frame", [0, 1], [], .store 0 (.lit "col") 1, .scalar⟩ = false := by decide +kernel
+
+/-- concretely: the frame object (location 1) changes, the Metadata's details dict (location 0) does not -/
+theorem irWriteFrame_frame :
+    (sem [irWriteFrame] 1 0 [.loc 1, .loc 0] ⟨[.dict [("cov", .scalar 1)], .dict []]⟩ []).1.objs
+      = [.dict [("cov", .scalar 1)], .dict [("col", .loc 0)]] := by decide +kernel
+
+/-- `def f(df, metadata): x = df[k]; x[k2] = 0` — a write THROUGH the unprotected container: what a data frame
+holds may be (reachable from) a protected argument, so this is rejected … -/
+def irWriteThroughFrame : Fn := ⟨"write_through_frame", [0, 1], [0],
+  .seq (.load 2 0 .dyn) (.seq (.const 3) (.store 2 (.lit "cov") 3)), .scalar⟩
+
+theorem irWriteThroughFrame_rejected : writesOnlyFresh [] irWriteThroughFrame = false := by decide +kernel
+
+/-- … and it does mutate the Metadata's details dict (location 0) when the frame (location 1) holds it -/
+theorem irWriteThroughFrame_mutates :
+    (sem [irWriteThroughFrame] 1 0 [.loc 1, .loc 0]
+      ⟨[.dict [("cov", .scalar 1)], .dict [("meta", .loc 0)]]⟩ [.n 0, .d [9]]).1.get 0
+      = some (.dict [("cov", .scalar 9)]) := by decide +kernel
+
+/-- a caller may hand to a callee's written parameter only its own unprotected object or a new unconstrained one:
+handing over a PROTECTED parameter is rejected … -/
+theorem irPassProtected_rejected :
+    disciplined [irWriteFrame, ⟨"caller", [0, 1], [], .call 2 0 [0, 1], .scalar⟩] = false := by decide +kernel
+
+/-- … handing over its own unprotected parameter, or a copy made in this call, is accepted -/
+theorem irPassUnprotected_accepted :
+    disciplined [irWriteFrame, ⟨"caller", [0, 1], [0], .call 2 0 [0, 1], .scalar⟩,
+      ⟨"caller_copy", [0, 1], [], .seq (.alloc 2 (.sh 0) (.union [0])) (.call 3 0 [2, 1]), .scalar⟩] = true := by
+  decide +kernel
 
 end HeapIR
-
--- OPEN frame_registry_entry_points_remaining
---   `frame_translated_functions` covers every operation of the harness registry (Triangle / Cell API,
---   bermuda.utils, io writers and readers, build_plot_data, plot_*) EXCEPT the entry points below, which stay
---   covered by the fingerprint correspondence only:
---   * `Triangle.from_wide_data_frame` / `wide_data_frame_to_triangle`, `Triangle.from_wide_csv` /
---     `wide_csv_to_triangle`: they call `_check_index_columns`, which converts date columns of the data frame it
---     is handed IN PLACE (`df[column] = pd.to_datetime(df[column])`) — outside the discipline by design;
---   * `Triangle.from_long_data_frame` / `long_data_frame_to_triangle`: `cells[index].values[field] = value`
---     writes into the values dict of a cell built in the same call; the analysis is field-insensitive for
---     constructed objects, the function is summarised as pure after review (REVIEWED_PURE);
---   * reviewed-pure helpers not covered by a theorem: `date_utils.standardize_resolution`,
---     `date_utils.resolution_delta` (`quantity *= 3` on an int), `basis._policy_earned_premium_share_by_month`;
---   * mutators by contract, not arguments of the property: `Matrix.__setitem__`, `_BodyRawIO.readinto`,
---     `_open_s3_stream` (module-level client cache).
---   And, for all functions: the theorem is about the IR program; that the IR over-approximates the Python
---   function rests on the translator and its summary tables (trusted base above), cross-checked every run by
---   the fingerprint correspondence on the real implementation.
 
 end Bermuda.Properties.C03
